@@ -36,16 +36,29 @@ package fsm
 //@   loop 2 invariant done: forall k *container.Container :: iterdone(k) && k != con ==> !k.ValueSetFromEnv && (k.ValueSetByUser != nil ==> deref(k.ValueSetByUser))
 //@   loop 2 invariant frame: forall k *container.Container :: !(k in containers) ==> k.ValueSetFromEnv == old(k.ValueSetFromEnv)
 
-// --- apply (C01 O1, C02, C09): depth-first backtracking over all matching transitions --------------------------------
+// --- apply (C01 O1, C02, C09, C03): depth-first backtracking over all matching transitions ---------------------------
 // accepts: the acceptance relation of a compiled graph, over the matcher semantics mOK/mRem/mRej of package matcher.
-// A leading `--` is stripped once (when options are still allowed) *before* the terminal test.
-//@ pure static rec func accepts(s *State, args []string, rej bool) bool =
-//@     (s.Terminal && len((len(args) > 0 && !rej && args[0] == "--") ? args[1:] : args) == 0) ||
-//@     (exists i int :: 0 <= i && i < len(s.Transitions) &&
-//@         mOK(s.Transitions[i].Matcher, (len(args) > 0 && !rej && args[0] == "--") ? args[1:] : args, rej || (len(args) > 0 && args[0] == "--")) &&
+// A leading `--` is stripped once (when options are still allowed) *before* the terminal test. `idle` lists the states
+// entered since the last time a transition consumed something or switched options off; re-entering one of them is refused
+// (the search would repeat itself). accepts(s, args, false, nil) is what Parse decides; that refusing repetitions loses
+// no sentence (a derivation that returns to a configuration can be cut short) is the paper lemma cut-cycles of DESIGN.md.
+//@ pure func stripped(args []string, rej bool) []string = (len(args) > 0 && !rej && args[0] == "--") ? args[1:] : args
+//@ pure func rejAfter(args []string, rej bool) bool = rej || (len(args) > 0 && args[0] == "--")
+//@ pure func idleAfter(args []string, rej bool, idle []*State) []*State = (len(args) > 0 && !rej && args[0] == "--") ? nil : idle
+//@ pure func inIdle(s *State, idle []*State) bool = exists j int :: {idle[j]} 0 <= j && j < len(idle) && idle[j] == s
+//@ pure func nextIdle(s *State, idle []*State, a1 []string, r1 bool, rem []string, rrej bool) []*State =
+//@     (rrej == r1 && rem == a1) ? idle ++ seq(s) : nil
+//@ pure static rec func accepts(s *State, args []string, rej bool, idle []*State) bool =
+//@     !inIdle(s, idleAfter(args, rej, idle)) &&
+//@     ((s.Terminal && len(stripped(args, rej)) == 0) ||
+//@      (exists i int :: 0 <= i && i < len(s.Transitions) &&
+//@         mOK(s.Transitions[i].Matcher, stripped(args, rej), rejAfter(args, rej)) &&
 //@         accepts(s.Transitions[i].Next,
-//@                 mRem(s.Transitions[i].Matcher, (len(args) > 0 && !rej && args[0] == "--") ? args[1:] : args, rej || (len(args) > 0 && args[0] == "--")),
-//@                 mRej(s.Transitions[i].Matcher, rej || (len(args) > 0 && args[0] == "--"))))
+//@                 mRem(s.Transitions[i].Matcher, stripped(args, rej), rejAfter(args, rej)),
+//@                 mRej(s.Transitions[i].Matcher, rejAfter(args, rej)),
+//@                 nextIdle(s, idleAfter(args, rej, idle), stripped(args, rej), rejAfter(args, rej),
+//@                          mRem(s.Transitions[i].Matcher, stripped(args, rej), rejAfter(args, rej)),
+//@                          mRej(s.Transitions[i].Matcher, rejAfter(args, rej))))))
 // graphWF: every state and transition object is well formed (established by the parser; see DESIGN.md, bounded link O4)
 //@ pure static func graphWF() bool =
 //@     (forall t *Transition :: t != nil ==> t.Next != nil && itag(t.Matcher) != 0 && matcherWF(t.Matcher)) &&
@@ -63,28 +76,37 @@ package fsm
 //@   let a1 = (len(args) > 0 && !pc.RejectOptions && args[0] == "--") ? args[1:] : args
 //@   let r1 = pc.RejectOptions || (len(args) > 0 && args[0] == "--")
 //@   let T = s.Transitions
-//@   ensures sound: result ==> accepts(s, args, pc.RejectOptions)
-//@   ensures complete: !result ==> !accepts(s, args, pc.RejectOptions)
+//@   let idle1 = (len(args) > 0 && !pc.RejectOptions && args[0] == "--") ? nil : idle
+//@   ensures sound: result ==> accepts(s, args, pc.RejectOptions, idle)
+//@   ensures complete: !result ==> !accepts(s, args, pc.RejectOptions, idle)
 //@   ensures fail-frame: !result ==> unchangedOldMaps(pc.Args)
 //@   ensures success-frame: result ==> frameOldMaps(pc.Args, pc.Opts)
 //@   ensures keys: result ==> forall k *container.Container ::
 //@       (((k in pc.Args) && !old(k in pc.Args)) || ((k in pc.Opts) && !old(k in pc.Opts))) ==> k != nil
-//@   loop 1 invariant listed: forall j int :: {matches[j]} 0 <= j && j < len(matches) ==> matches[j] != nil && allocated(matches[j]) &&
+//@   loop 2 invariant listed: forall j int :: {matches[j]} 0 <= j && j < len(matches) ==> matches[j] != nil && allocated(matches[j]) &&
 //@       (exists i int :: 0 <= i && i < $k && matches[j].tr == T[i]) &&
 //@       mOK(matches[j].tr.Matcher, a1, r1) && matches[j].rem == mRem(matches[j].tr.Matcher, a1, r1) &&
 //@       matches[j].pc.RejectOptions == mRej(matches[j].tr.Matcher, r1) &&
 //@       matches[j].pc.Args != nil && matches[j].pc.Opts != nil && matches[j].pc.Args != matches[j].pc.Opts &&
 //@       fresh(matches[j].pc.Args) && fresh(matches[j].pc.Opts) && allocated(matches[j].pc.Args) && allocated(matches[j].pc.Opts)
-//@   loop 1 invariant keys: forall j int, k *container.Container :: {matches[j], k in matches[j].pc.Args} {matches[j], k in matches[j].pc.Opts}
-//@       0 <= j && j < len(matches) && ((k in matches[j].pc.Args) || (k in matches[j].pc.Opts)) ==> k != nil
-//@   loop 1 invariant old-maps: unchangedOldMaps(pc.Args)
-//@   loop 1 invariant count: len(matches) == nmatch(T, $k, a1, r1)
-//@   loop 1 invariant all-tried: forall i int :: 0 <= i && i < $k && mOK(T[i].Matcher, a1, r1) ==>
-//@       0 <= nmatch(T, i, a1, r1) && nmatch(T, i, a1, r1) < len(matches) && matches[nmatch(T, i, a1, r1)].tr == T[i]
-//@   loop 2 invariant old-maps: unchangedOldMaps(pc.Args)
 //@   loop 2 invariant keys: forall j int, k *container.Container :: {matches[j], k in matches[j].pc.Args} {matches[j], k in matches[j].pc.Opts}
+//@       0 <= j && j < len(matches) && ((k in matches[j].pc.Args) || (k in matches[j].pc.Opts)) ==> k != nil
+//@   loop 2 invariant old-maps: unchangedOldMaps(pc.Args)
+//@   loop 2 invariant count: len(matches) == nmatch(T, $k, a1, r1)
+//@   loop 2 invariant all-tried: forall i int :: 0 <= i && i < $k && mOK(T[i].Matcher, a1, r1) ==>
+//@       0 <= nmatch(T, i, a1, r1) && nmatch(T, i, a1, r1) < len(matches) && matches[nmatch(T, i, a1, r1)].tr == T[i]
+//@   loop 3 invariant old-maps: unchangedOldMaps(pc.Args)
+//@   loop 3 invariant keys: forall j int, k *container.Container :: {matches[j], k in matches[j].pc.Args} {matches[j], k in matches[j].pc.Opts}
 //@       $k <= j && j < len(matches) && ((k in matches[j].pc.Args) || (k in matches[j].pc.Opts)) ==> k != nil
-//@   loop 2 invariant rejected: forall j int :: {matches[j]} 0 <= j && j < $k ==> !accepts(matches[j].tr.Next, matches[j].rem, matches[j].pc.RejectOptions)
+//@   loop 3 invariant rejected: forall j int :: {matches[j]} 0 <= j && j < $k ==> !accepts(matches[j].tr.Next, matches[j].rem, matches[j].pc.RejectOptions,
+//@           nextIdle(s, idle1, a1, r1, matches[j].rem, matches[j].pc.RejectOptions))
+//@   loop 1 invariant not-seen: forall j int :: {idle1[j]} 0 <= j && j < $k ==> idle1[j] != s
+//@   loop 1 invariant same: idle == idle1
+
+//@ func sameArgs
+//@   ensures same: result ==> a == b
+//@   ensures differ: !result ==> a != b
+//@   loop 1 invariant prefix: len(a) == len(b) && (forall j int :: {a[j]} 0 <= j && j < $k ==> a[j] == b[j])
 
 // --- Parse (C01, C07, C13): validation of one level's tokens ---------------------------------------------------------
 // containersWF: every container object carries a value (established by mkOpt/mkArg for the containers they create;
@@ -96,8 +118,8 @@ package fsm
 //@   requires graph: graphWF() && containersWF() && s != nil
 //@   requires a-cb-disjoint: forall k *container.Container, j *container.Container :: k.ValueSetByUser == nil || k.ValueSetByUser != ival(j.Value)
 //@   ensures value-events-only: len(trace) >= len(old(trace)) && (forall i int :: {trace[i]} len(old(trace)) <= i && i < len(trace) ==> trace[i].kind == 5 || trace[i].kind == 6)
-//@   ensures rejected: !accepts(s, args, false) ==> result != nil
-//@   ensures nil-only-if-accepted: result == nil ==> accepts(s, args, false)
+//@   ensures rejected: !accepts(s, args, false, nil) ==> result != nil
+//@   ensures nil-only-if-accepted: result == nil ==> accepts(s, args, false, nil)
 //@   ensures no-failed-set: result == nil ==> (forall i int :: len(old(trace)) <= i && i < len(trace) && trace[i].kind == 5 ==> trace[i].b == 1)
 
 // --- graph construction helpers (used by the parser) -----------------------------------------------------------------------
